@@ -79,11 +79,10 @@ Theorem C05_saved_tree_is_start_plus_overlay :
   forall cfg db series fs fs1 st n rejs dm cl fs2 cl',
   is_file fs [] = false ->
   apply_series cfg db {| a_applied := []; a_files := [] |} 0 series fs = (fs1, ROk (st, n, rejs)) ->
-  NoDup (map nkey (a_files st)) ->
   save_all dm (a_files st) cl fs1 = (fs2, ROk cl') ->
   (forall k m, In (k, m) (a_files st) ->
      if deleted m then is_file fs2 (normalize k) = false
      else exists md, lookup_file (normalize k) (fs_files fs2) = Some {| f_data := concat_lines (content m); f_mode := md |}) /\
   (forall q, ~ In q (map nkey (a_files st)) -> lookup_file q (fs_files fs2) = lookup_file q (fs_files fs)).
-Proof. exact push_saved_tree. Qed.
+Proof. exact push_saved_tree_closed. Qed.
 Print Assumptions C05_saved_tree_is_start_plus_overlay.
